@@ -65,7 +65,7 @@ def synth_path(n, isabs, seed):
 
 def resolve_spec(pm, d, path):
     """The property, written independently of the Lean model: None = rejected."""
-    if len(path) == 0:
+    if len(path) == 0 or b"\0" in path:
         return None
     if path[:1] == b"/":
         return path if len(path) < pm else None
@@ -524,22 +524,16 @@ def run_pathops(chk, h, scratch, pm, tier, broken, model_ok):
                 exp = m.split()[1]
                 errs["early:" + exp] = errs.get("early:" + exp, 0) + 1
                 if rt[0] != exp:
-                    broken.append({"kind": "correspondence", "msg": f"{mline[:100]}: real errno {rt[0]} model {exp} (no host operation)"})
+                    guest = [p] + ([p2] if kind == "rename" else [])
+                    if any(b"\0" in g for g in guest):
+                        chk.violation("path-embedded-nul-truncated",
+                                      f"{kind} with a guest path containing a NUL byte ({p!r}) is not rejected (returns {rt[0]}): the host operation acts on the path cut at the NUL, not on the resolved path",
+                                      {"kind": "pathop-nul", "request": mline, "real": real}, True)
+                    else:
+                        broken.append({"kind": "correspondence", "msg": f"{mline[:100]}: real errno {rt[0]} model {exp} (no host operation)"})
                 continue
             if not m.startswith("host "):
                 broken.append({"kind": "correspondence", "msg": f"{mline[:100]}: model `{m}` real `{real[:60]}`"})
-                continue
-            guest = [p] + ([p2] if kind == "rename" else [])
-            if any(b"\0" in g for g in guest):
-                # model (= code as written) hands the host the string up to the first NUL
-                ename0, _ = twin_exec(m, a2b)
-                exp0 = "0" if ename0 is None else drv.batch([f"werrno {ename0}"])[0]
-                if rt[0] == exp0:
-                    chk.violation("path-embedded-nul-truncated",
-                                  f"{kind} with a guest path containing a NUL byte ({p!r}) performs the host operation on the path cut at the NUL ({m[:120]}) instead of rejecting it: the operation does not act on the resolved path",
-                                  {"kind": "pathop-nul", "request": mline, "host_op": m, "real": real}, True)
-                else:
-                    broken.append({"kind": "correspondence", "msg": f"{mline[:100]}: NUL path real `{real[:60]}` model op `{m[:80]}` → {exp0}"})
                 continue
             ename, extra2 = twin_exec(m, a2b)
             if ename is None:
